@@ -1357,10 +1357,33 @@ def aliasing_block(ctx):
 # Subs of Subs back to the original names (outside the AST: built directly)
 # ----------------------------------------------------------------------------------------------
 
-ROUNDTRIP = ("KF-adjoint-roundtrip-identity",
-             "a renaming undone by a second Subs, x(i='k', j='l')(k='i', l='j'), evaluates to the very same "
-             "hash-consed tensor as the leaf x: AdjointTape maps that eager value to the outer Subs and keys "
-             "adjoint_values by it, so the leaf x gets adjoint 0 and the outer Subs twice its adjoint")
+ROUNDTRIP_SNIPPET = """
+import numpy as np
+from collections import OrderedDict
+import funsor, funsor.ops as ops
+from funsor.domains import Bint
+from funsor.tensor import Tensor
+from funsor.interpretations import reflect
+from funsor.adjoint import forward_backward
+funsor.set_backend("numpy")
+w = {found!r}
+log = w["sr"] != "add-mul"
+sum_op, prod_op = (ops.logaddexp, ops.add) if log else (ops.add, ops.mul)
+conv = (lambda a: np.log(np.array(a, dtype=float))) if log else (lambda a: np.array(a, dtype=float))
+inputs = OrderedDict((nm, Bint[n]) for nm, n in w["axes"])
+x, y = Tensor(conv(w["x"]), inputs), Tensor(conv(w["y"]), inputs)
+with reflect:
+    e = prod_op(x(**{{nm: nm + "_r" for nm in w["renamed"]}})(**{{nm + "_r": nm for nm in w["renamed"]}}), y)
+    if w["reduced"]:
+        e = e.reduce(sum_op)
+fwd, bwd = forward_backward(sum_op, prod_op, e)
+gx = bwd[x]
+if set(getattr(gx, "inputs", ())) == set(inputs):
+    gx = gx.align(tuple(inputs))
+got = np.exp(gx.data) if log else gx.data
+print("adjoint of x:", got, " expected y:", w["y"])
+FAILS = not (np.shape(got) == np.shape(w["y"]) and np.allclose(got, np.array(w["y"], dtype=float)))
+"""
 
 
 def roundtrip_stream(ctx, n):
@@ -1410,20 +1433,13 @@ def roundtrip_stream(ctx, n):
             found = dict(axes=list(zip(names, sizes)), renamed=ren, sr=sr, leaf=bad[0], funsor=bad[1], derivative=bad[2],
                          x=xd.tolist(), y=yd.tolist(), reduced=not keep_free)
         ok += not bad
-    fid, what = ROUNDTRIP
-    if ctx.is_open(fid):
-        ctx.known(fid, reproduced=found is not None, what=what + (f"  [example: {found}]" if found else ""))
-    elif found is not None:
-        listed = any(f.get("id") == fid for f in ctx.findings)
-        if listed:      # listed but not open (fixed): a reproduction is a violation
-            ctx.fail("input", "C11.roundtrip-adjoint", witness=found, expected=str(found["derivative"]), got=str(found["funsor"]))
-        else:
-            ctx.extra.setdefault("unlisted_findings", []).append(dict(id=fid, reproduced=True, what=what, example=found))
-            ctx.count(f"unlisted-finding:{fid}:reproduced")
-            print(f"NOTE: property=C11 unlisted finding candidate {fid} reproduced: {what}")
-    else:
-        for _ in range(ok):
-            ctx.case()
+    # part of the clean stream since /repo's fix of KF-adjoint-roundtrip-identity (a node's adjoint is
+    # recorded when its tape entry is popped; leaves are read from what is left pending)
+    if found is not None:
+        ctx.fail("input", "C11.roundtrip-adjoint", witness=found, expected=str(found["derivative"]),
+                 got=str(found["funsor"]), python=ROUNDTRIP_SNIPPET.format(found=found))
+    for _ in range(ok):
+        ctx.case()
     return found
 
 
@@ -1488,6 +1504,14 @@ def search(ctx, broken):
 
 def replay(ctx, doc):
     w = doc.get("witness") or {}
+    if "renamed" in w and doc.get("python"):      # round-trip stream: built directly, replayed by its snippet
+        g = {}
+        try:
+            exec(doc["python"], g)
+        except Exception as ex:
+            print(f"replay: snippet raised {type(ex).__name__}: {ex}")
+            return True
+        return bool(g.get("FAILS", False))
     cj = w.get("case", w)
     try:
         case = case_from_json(cj)
